@@ -105,9 +105,12 @@ def samples_from(files, k=4):
     out = []
     for path in files[:2]:
         lines = core.read_ndjson(path)
-        calls = [l for l in lines if l["e"] in ("call", "deliver")][: k]
+        calls = [l for l in lines if l["e"] in ("call", "deliver", "cop")][: k]
         for c in calls:
-            if c["e"] == "call":
+            if c["e"] == "cop":
+                out.append({"t": c["t"], "cache_op": c["k"], "records": ["%s %s ttl %s" % (r["n"], r["ty"], r["ttl"]) for r in c.get("recs", [])],
+                            "cached_after": len(c.get("dump", []))})
+            elif c["e"] == "call":
                 out.append({"t": c["t"], "call": c["fn"], "args": {x: c["args"][x] for x in list(c["args"])[:6]}, "res": c["res"]})
             else:
                 m = c.get("m", {})
@@ -128,6 +131,8 @@ def count_scenarios(files):
                     sigs.add("|".join(cur))
                 cur = []
                 n += 1
+            elif l["e"] == "cop":
+                cur.append(l["k"] + ":" + ",".join("%s/%s" % (r["ty"], r["ttl"]) for r in l.get("recs", [])))
             elif l["e"] == "call":
                 cur.append(l["fn"] + ":" + l["res"])
             elif l["e"] == "deliver":
@@ -139,7 +144,7 @@ def count_scenarios(files):
 
 
 def run_group(prop, tier, seed, t0, families, module, cfg, prefixes, mcs, need_hits, assume, rule,
-              n_quick=150, n_thorough=3000):
+              n_quick=150, n_thorough=3000, pre=None):
     """Generic check body for a daemon-level property.
     families: list of (family name, extra args[, module, cfg[, n_quick, n_thorough]]).
     mcs: list of (module, cfg) TLC model-checking runs."""
@@ -152,6 +157,13 @@ def run_group(prop, tier, seed, t0, families, module, cfg, prefixes, mcs, need_h
             v.violation(prop + ".model", {"module": m, "cfg": c}, {"tlc_error": r.get("error", "")[:2000], "cmd": r["cmd"]})
     n = n_thorough if tier == "thorough" else n_quick
     all_files, total, hits, foreign = [], 0, set(), {}
+    if pre:
+        # a component-level step of its own (models, drivers, monitor), accounted for with the rest
+        x = pre(v, tier, seed)
+        mc_res += x["mcs"]
+        all_files += x["files"]
+        total += x["total"]
+        hits |= x["hits"]
     for fam in families:
         family, extra = fam[0], fam[1]
         fmodule, fcfg = (fam[2], fam[3]) if len(fam) > 3 else (module, cfg)
